@@ -21,6 +21,7 @@
    The full statement is C02_derivatives_are_exact_full below (a Definition, not a theorem). *)
 From Coq Require Import List QArith Reals Lra Lia Arith Bool.
 From NV Require Import Scalar.Ops Model.Common Model.Basis Model.Knots Model.Eval Model.Degree Model.Derivs.
+From NV Require Import Proofs.Boehm Proofs.DerivAnalytic Proofs.BasisOneR Proofs.DerivLink Proofs.DerivLinkCurve Proofs.EvalR.
 From NV Require Import Proofs.BasisR Proofs.DerivsR Proofs.DerivsRatSurf Proofs.DersRow0 Proofs.DerivsOrder0 Proofs.DersWindow Proofs.DersWindow56 Proofs.DerivsAgree Proofs.DerivsAgreeSurf Proofs.Boehm Proofs.Hodograph.
 From NV Require Import Run.DerivsH.
 Import ListNotations.
@@ -212,3 +213,80 @@ Example C02_surface_alg2_order_above_degree :
   | _ => False
   end.
 Proof. vm_compute. repeat split. Qed.
+
+(* ======================================================================================================================
+   ANALYTIC LINK (added in round 2): the algebraic derivative formulas ARE the true, limit-based derivatives.
+   derivable_pt_lim is the standard library's epsilon-delta derivative; right_derivable_pt_lim its one-sided version
+   (Proofs/DerivAnalytic.v); kth_deriv_on a b k f g says g is the k-th iterated derivative of f on the open interval (a,b). *)
+
+(* [G] all degrees, all non-decreasing knot sequences with any multiplicities, every non-empty span: the Eq. 2.9 recursion dN
+   is, order by order, the analytic derivative of the Cox-de Boor function *)
+Theorem C02_eq29_is_the_true_derivative : forall U : nat -> R, (forall i, U i <= U (S i))%R ->
+  forall (k j p i : nat) (u : R), (U k < u < U (S k))%R ->
+  derivable_pt_lim (fun x => DerivAnalytic.dN U j p i x) u (DerivAnalytic.dN U (S j) p i u).
+Proof. exact dN_is_kth_derivative. Qed.
+Print Assumptions C02_eq29_is_the_true_derivative.
+
+(* [G] at a knot the derivative is taken from the right (the property's convention) *)
+Theorem C02_eq29_right_derivative_at_knot : forall U : nat -> R, (forall i, U i <= U (S i))%R ->
+  forall k j p i : nat, (U k < U (S k))%R ->
+  right_derivable_pt_lim (fun x => DerivAnalytic.dN U j p i x) (U k) (DerivAnalytic.dN U (S j) p i (U k)).
+Proof. exact dN_right_derivative_at_knot. Qed.
+Print Assumptions C02_eq29_right_derivative_at_knot.
+
+(* [G] all degrees: the single-function derivative algorithm A2.5 (helpers.basis_function_ders_one) returns the true k-th
+   derivatives of N_{i,p} on every open knot span *)
+Theorem C02_ders_one_is_the_true_derivative : forall (U : list R) (i p order : nat),
+  sortedR U -> (i + p + 1 < length U)%nat -> forall k k' : nat, (k' <= order)%nat -> (k' <= p)%nat ->
+  kth_deriv_on (Ufun U k) (Ufun U (S k)) k' (fun x => N (Ufun U) p i x)
+               (fun x => nth k' (basis_function_ders_one Rops p U i x order) 0%R).
+Proof. exact ders_one_is_true_derivative. Qed.
+Print Assumptions C02_ders_one_is_the_true_derivative.
+
+(* [B: degrees 1..5; ALL knot vectors, spans, parameters, orders] A2.3 (helpers.basis_function_ders) returns the true k-th
+   derivatives of the p+1 non-vanishing basis functions, inside the span and as right derivatives at its left knot *)
+Theorem C02_ders_is_the_true_derivative_deg_le_5 : forall (U : list R) (p span : nat),
+  sortedR U -> (1 <= p <= 5)%nat -> (p <= span)%nat -> (span + p < length U)%nat -> (span + 1 < length U)%nat ->
+  forall k r : nat, (k <= p)%nat -> (r <= p)%nat ->
+  kth_deriv_on (knR U span) (knR U (span + 1)) k (fun x => N (Ufun U) p (span - p + r) x)
+               (fun x => nth r (nth k (basis_function_ders Rops p U span x p) nil) 0%R).
+Proof. exact ders_is_true_derivative_deg_le_5. Qed.
+Print Assumptions C02_ders_is_the_true_derivative_deg_le_5.
+
+Theorem C02_ders_right_derivative_at_knot_deg_le_5 : forall (U : list R) (p span : nat),
+  sortedR U -> (1 <= p <= 5)%nat -> (p <= span)%nat -> (span + p < length U)%nat -> (span + 1 < length U)%nat ->
+  forall k r : nat, (S k <= p)%nat -> (r <= p)%nat -> (knR U span < knR U (span + 1))%R ->
+  right_derivable_pt_lim (fun x => nth r (nth k (basis_function_ders Rops p U span x p) nil) 0%R)
+    (knR U span) (nth r (nth (S k) (basis_function_ders Rops p U span (knR U span) p) nil) 0%R).
+Proof. exact ders_right_derivative_at_knot_deg_le_5. Qed.
+Print Assumptions C02_ders_right_derivative_at_knot_deg_le_5.
+
+(* [B: degrees 1..5; non-rational curves, default evaluator A3.2; every order incl. orders above the degree] the derivative
+   vectors returned by the model are the true k-th derivatives of the curve (the Cox-de Boor definition curve_def of C01),
+   coordinate by coordinate, on every open knot span, and right derivatives on the half-open span incl. its left knot *)
+Theorem C02_curve_derivs_are_the_true_derivatives_deg_le_5 : forall (U : list R) (P : list (list R)) (p dim : nat),
+  sortedR U -> wf_net P dim -> (1 <= p <= 5)%nat -> (p < length P)%nat -> length U = (length P + p + 1)%nat ->
+  forall s : nat, (p <= s < length P)%nat -> forall order k d : nat, (k <= order)%nat -> (d < dim)%nat ->
+  kth_deriv_on (knR U s) (knR U (s + 1)) k (fun x => curve_def U p P d x)
+               (fun x => nth d (nth k (Derivs.curve_derivs Rops dim p U P x order) nil) 0%R).
+Proof. exact curve_derivs_is_true_derivative_deg_le_5. Qed.
+Print Assumptions C02_curve_derivs_are_the_true_derivatives_deg_le_5.
+
+Theorem C02_curve_derivs_right_derivative_deg_le_5 : forall (U : list R) (P : list (list R)) (p dim : nat),
+  sortedR U -> wf_net P dim -> (1 <= p <= 5)%nat -> (p < length P)%nat -> length U = (length P + p + 1)%nat ->
+  forall s : nat, (p <= s < length P)%nat -> forall (order k d : nat) (u : R), (S k <= order)%nat -> (d < dim)%nat ->
+  (knR U s <= u < knR U (s + 1))%R ->
+  right_derivable_pt_lim (fun x => nth d (nth k (Derivs.curve_derivs Rops dim p U P x order) nil) 0%R) u
+                         (nth d (nth (S k) (Derivs.curve_derivs Rops dim p U P u order) nil) 0%R).
+Proof. exact curve_derivs_right_derivative_deg_le_5. Qed.
+Print Assumptions C02_curve_derivs_right_derivative_deg_le_5.
+
+(* the tangent vector really is the derivative of the evaluated point (model's curve_point of C01) *)
+Theorem C02_curve_tangent_is_derivative_of_point_deg_le_5 : forall (U : list R) (P : list (list R)) (p dim : nat),
+  sortedR U -> wf_net P dim -> (1 <= p <= 5)%nat -> (p < length P)%nat -> length U = (length P + p + 1)%nat ->
+  forall s : nat, (p <= s < length P)%nat -> forall (order d : nat) (u : R), (1 <= order)%nat -> (d < dim)%nat ->
+  (knR U s < u < knR U (s + 1))%R ->
+  derivable_pt_lim (fun x => nth d (Eval.curve_point Rops dim p U P x) 0%R) u
+                   (nth d (nth 1 (Derivs.curve_derivs Rops dim p U P u order) nil) 0%R).
+Proof. exact curve_tangent_is_derivative_deg_le_5. Qed.
+Print Assumptions C02_curve_tangent_is_derivative_of_point_deg_le_5.
